@@ -7,8 +7,9 @@
     * `merge_keeps_own_edges`, `merge_takes_all_imported_edges`: merging the call graph of an imported
       file never loses an edge -- neither of the importing file nor of ANY entry of the imported graph
       (a live function can never look dead because of an incomplete merge);
-    * `reachable_functions_are_collected`: whenever `getUsedFuncs` returns, its result contains every
-      function reachable in the call graph from the start key (the top-level code is the key "");
+    * `reachable_functions_are_collected`: whenever `getUsedFuncs` (a work list that looks at every function
+      once) returns, its result contains every function reachable in the call graph from the start key (the
+      top-level code is the key ""), and is closed under calls (`workList_spec`);
     * `removal_keeps_every_reachable_function`: `cleanProgram` keeps every function definition that top
       level code can reach through calls, and changes nothing else: the result is the body filtered, in
       the same order, all non-function statements kept;
@@ -142,115 +143,115 @@ inductive Reach (used : List (String × List String)) : String → String → Pr
   | edge {a b} : Edge used a b → Reach used a b
   | step {a b c} : Edge used a b → Reach used b c → Reach used a c
 
-def addUnique (acc : List String) (c : String) : List String := if acc.contains c then acc else acc ++ [c]
+theorem addNewFuncs_prefix : ∀ (fs acc : List String), ∃ extra, addNewFuncs acc fs = acc ++ extra := by
+  intro fs
+  induction fs with
+  | nil => intro acc; exact ⟨[], by simp [addNewFuncs]⟩
+  | cons x rest ih =>
+    intro acc
+    simp only [addNewFuncs, List.foldl_cons]
+    by_cases h : acc.contains x = true
+    · simp only [h, if_true]; exact ih acc
+    · simp only [h, Bool.false_eq_true, if_false]
+      obtain ⟨e, he⟩ := ih (acc ++ [x])
+      exact ⟨x :: e, by simp only [addNewFuncs] at he; rw [he]; simp⟩
 
-theorem addUnique_mem (acc : List String) (c x : String) (h : x ∈ acc) : x ∈ addUnique acc c := by
-  unfold addUnique; split <;> simp [h]
+theorem addNewFuncs_mem_acc (fs acc : List String) (x : String) (h : x ∈ acc) : x ∈ addNewFuncs acc fs := by
+  obtain ⟨e, he⟩ := addNewFuncs_prefix fs acc
+  rw [he]; simp [h]
 
-theorem addUnique_self (acc : List String) (c : String) : c ∈ addUnique acc c := by
-  unfold addUnique; split
-  · rename_i h; simpa using h
-  · simp
-
-theorem union_acc : ∀ (sub acc : List String) (x : String), x ∈ acc →
-    x ∈ sub.foldl (fun a y => if a.contains y then a else a ++ [y]) acc := by
-  intro sub
-  induction sub with
-  | nil => intro acc x h; simpa using h
-  | cons y rest ih => intro acc x h; simp only [List.foldl_cons]; exact ih _ _ (addUnique_mem acc y x h)
-
-theorem union_sub : ∀ (sub acc : List String) (x : String), x ∈ sub →
-    x ∈ sub.foldl (fun a y => if a.contains y then a else a ++ [y]) acc := by
-  intro sub
-  induction sub with
+theorem addNewFuncs_mem_new : ∀ (fs acc : List String) (x : String), x ∈ fs → x ∈ addNewFuncs acc fs := by
+  intro fs
+  induction fs with
   | nil => intro acc x h; simp at h
   | cons y rest ih =>
     intro acc x h
-    simp only [List.foldl_cons]
+    simp only [addNewFuncs, List.foldl_cons]
     simp at h
     rcases h with rfl | h
-    · exact union_acc rest _ _ (addUnique_self acc x)
-    · exact ih _ _ h
+    · by_cases hc : acc.contains x = true
+      · simp only [hc, if_true]
+        exact addNewFuncs_mem_acc rest acc x (by simpa using hc)
+      · simp only [hc, Bool.false_eq_true, if_false]
+        exact addNewFuncs_mem_acc rest (acc ++ [x]) x (by simp)
+    · exact ih _ x h
 
-/-- one step of the collection loop -/
-def collectStep (G : String → Option (List String)) (acc : List String) (c : String) : Option (List String) := do
-  let acc := if acc.contains c then acc else acc ++ [c]
-  let sub ← G c
-  pure (sub.foldl (fun a x => if a.contains x then a else a ++ [x]) acc)
+/-- the processed part of the work list: every callee of every element before index `i` is in the list -/
+def Processed (used : List (String × List String)) (i : Nat) (acc : List String) : Prop :=
+  ∀ j (hj : j < acc.length), j < i → ∀ c, Edge used acc[j] c → c ∈ acc
 
-theorem collect_fold (G : String → Option (List String)) : ∀ (callees init r : List String),
-    callees.foldlM (collectStep G) init = some r →
-    (∀ x ∈ init, x ∈ r) ∧ (∀ c ∈ callees, c ∈ r ∧ ∃ sub, G c = some sub ∧ ∀ x ∈ sub, x ∈ r) := by
-  intro callees
-  induction callees with
-  | nil => intro init r h; simp [List.foldlM, pure] at h; subst h; simp
-  | cons c rest ih =>
-    intro init r h
-    simp only [List.foldlM_cons] at h
-    cases hs : collectStep G init c with
-    | none => simp [hs, bind, Option.bind] at h
-    | some acc1 =>
-      simp only [hs, bind, Option.bind] at h
-      obtain ⟨h1, h2⟩ := ih acc1 r h
-      unfold collectStep at hs
-      cases hg : G c with
-      | none => simp [hg, bind, Option.bind] at hs
-      | some sub =>
-        simp only [hg, bind, Option.bind, pure] at hs
-        cases hs
-        refine ⟨fun x hx => h1 x (union_acc _ _ _ (addUnique_mem init c x hx)), ?_⟩
-        intro d hd
-        simp at hd
-        rcases hd with rfl | hd
-        · exact ⟨h1 _ (union_acc _ _ _ (addUnique_self init d)), sub, hg, fun x hx => h1 x (union_sub _ _ _ hx)⟩
-        · exact h2 d hd
-
-theorem getUsedFuncs_succ (used : List (String × List String)) (fuel : Nat) (start : String) :
-    getUsedFuncs used (fuel + 1) start =
-      match assocGet used start with
-      | none => some []
-      | some callees => callees.foldlM (collectStep (getUsedFuncs used fuel)) (if start.length > 0 then [start] else []) := by
-  rw [getUsedFuncs]
-  rfl
-
-/-- **Everything reachable is collected.** -/
-theorem reachable_functions_are_collected (used : List (String × List String)) :
-    ∀ (fuel : Nat) (start : String) (r : List String), getUsedFuncs used fuel start = some r →
-      ∀ x, Reach used start x → x ∈ r := by
+theorem workList_spec (used : List (String × List String)) : ∀ (fuel i : Nat) (acc r : List String),
+    workList used fuel i acc = some r → Processed used i acc →
+    (∀ x ∈ acc, x ∈ r) ∧ (∀ a ∈ r, ∀ c, Edge used a c → c ∈ r) := by
   intro fuel
   induction fuel with
-  | zero => intro start r h; simp [getUsedFuncs] at h
+  | zero => intro i acc r h; simp [workList] at h
   | succ fuel ih =>
-    intro start r h x hx
-    rw [getUsedFuncs_succ] at h
-    cases hg : assocGet used start with
-    | none =>
-      exfalso
-      cases hx with
-      | edge e => obtain ⟨cs, he, _⟩ := e; rw [hg] at he; cases he
-      | step e _ => obtain ⟨cs, he, _⟩ := e; rw [hg] at he; cases he
-    | some callees =>
-      simp only [hg] at h
-      obtain ⟨_, h2⟩ := collect_fold _ _ _ _ h
-      cases hx with
-      | edge e =>
-        obtain ⟨cs, he, hm⟩ := e
-        rw [hg] at he; cases he
-        exact (h2 x hm).1
-      | step e hr =>
-        obtain ⟨cs, he, hm⟩ := e
-        rw [hg] at he; cases he
-        obtain ⟨_, sub, hsub, hall⟩ := h2 _ hm
-        exact hall x (ih _ sub hsub x hr)
+    intro i acc r h hp
+    unfold workList at h
+    by_cases hlt : i < acc.length
+    · simp only [hlt, dif_pos] at h
+      obtain ⟨extra, he⟩ := addNewFuncs_prefix ((assocGet used acc[i]).getD []) acc
+      have hp' : Processed used (i + 1) (addNewFuncs acc ((assocGet used acc[i]).getD [])) := by
+        intro j hj hji c hc
+        have hjl : j < acc.length := by omega
+        have hget : (addNewFuncs acc ((assocGet used acc[i]).getD []))[j] = acc[j] := by
+          simp only [he]; rw [List.getElem_append_left hjl]
+        rw [hget] at hc
+        by_cases hj' : j < i
+        · exact addNewFuncs_mem_acc _ _ _ (hp j hjl hj' c hc)
+        · have : j = i := by omega
+          subst this
+          obtain ⟨cs, hcs, hm⟩ := hc
+          apply addNewFuncs_mem_new
+          simp [hcs, hm]
+      obtain ⟨h1, h2⟩ := ih (i + 1) _ r h hp'
+      exact ⟨fun x hx => h1 x (addNewFuncs_mem_acc _ _ _ hx), h2⟩
+    · simp only [hlt, dif_neg, not_false_eq_true] at h
+      cases h
+      refine ⟨fun x hx => hx, ?_⟩
+      intro a ha c hc
+      obtain ⟨j, hj, rfl⟩ := List.mem_iff_getElem.mp ha
+      exact hp j hj (by omega) c hc
+
+/-- **Everything reachable is collected.** -/
+theorem reachable_functions_are_collected (used : List (String × List String)) (start : String) (r : List String)
+    (h : getUsedFuncs used start = some r) : ∀ x, Reach used start x → x ∈ r := by
+  unfold getUsedFuncs at h
+  cases hg : assocGet used start with
+  | none =>
+    intro x hx
+    exfalso
+    cases hx with
+    | edge e => obtain ⟨cs, he, _⟩ := e; rw [hg] at he; cases he
+    | step e _ => obtain ⟨cs, he, _⟩ := e; rw [hg] at he; cases he
+  | some callees =>
+    simp only [hg] at h
+    obtain ⟨h1, h2⟩ := workList_spec used _ 0 _ r h (by intro j _ hj; omega)
+    have closed : ∀ a x, Reach used a x → a ∈ r → x ∈ r := by
+      intro a x hr
+      induction hr with
+      | edge e => intro ha; exact h2 _ ha _ e
+      | step e _ ih => intro ha; exact ih (h2 _ ha _ e)
+    intro x hx
+    cases hx with
+    | edge e =>
+      obtain ⟨cs, he, hm⟩ := e
+      rw [hg] at he; cases he
+      exact h1 x (addNewFuncs_mem_new _ _ _ hm)
+    | step e hr =>
+      obtain ⟨cs, he, hm⟩ := e
+      rw [hg] at he; cases he
+      exact closed _ x hr (h1 _ (addNewFuncs_mem_new _ _ _ hm))
 
 def isKept (keep : List String) : Stmt → Bool
   | .funcDef name _ _ _ _ => keep.contains name
   | _ => true
 
 theorem cleanProgram_eq (used : List (String × List String)) (body out : List Stmt) (h : cleanProgram used body = some out) :
-    ∃ keep, getUsedFuncs used (used.length + 2) "" = some keep ∧ out = body.filter (isKept keep) := by
+    ∃ keep, getUsedFuncs used "" = some keep ∧ out = body.filter (isKept keep) := by
   unfold cleanProgram at h
-  cases hk : getUsedFuncs used (used.length + 2) "" with
+  cases hk : getUsedFuncs used "" with
   | none => simp [hk, bind, Option.bind] at h
   | some keep =>
     simp only [hk, bind, Option.bind, pure] at h
@@ -265,7 +266,7 @@ theorem removal_keeps_every_reachable_function (used : List (String × List Stri
     (hin : Stmt.funcDef name pub rets params fb ∈ body) (hr : Reach used "" name) :
     Stmt.funcDef name pub rets params fb ∈ out := by
   obtain ⟨keep, hk, rfl⟩ := cleanProgram_eq used body out h
-  have := reachable_functions_are_collected used _ "" keep hk name hr
+  have := reachable_functions_are_collected used "" keep hk name hr
   simp [List.mem_filter, hin, isKept, this]
 
 /-- removal drops nothing but function definitions, and keeps the order of what it keeps -/
